@@ -34,6 +34,7 @@ type Vector struct {
 	Obs     map[string]string `json:"obs,omitempty"` // expected observations (hex / decimal)
 	Reach   []string          `json:"reach,omitempty"`
 	Msg     string            `json:"msg,omitempty"`
+	Approx  bool              `json:"approx,omitempty"` // path used an over-approximating model: observations are not comparable
 }
 type VecVal struct {
 	Kind string `json:"kind"`
@@ -321,7 +322,7 @@ func (e *Engine) doAssert(st *State, id string, c *Term) {
 // buildVector extracts the values of the path's inputs from the current
 // solver model (call between a sat Check and Done).
 func (e *Engine) buildVector(st *State, expect string) *Vector {
-	v := &Vector{Entry: e.rep.entry, Pkg: e.rep.pkg, Expect: expect, Inputs: map[string]VecVal{}, Reach: append([]string(nil), st.reached...)}
+	v := &Vector{Entry: e.rep.entry, Pkg: e.rep.pkg, Expect: expect, Inputs: map[string]VecVal{}, Reach: append([]string(nil), st.reached...), Approx: st.approx}
 	var ts []*Term
 	for _, in := range st.inputs {
 		for _, t := range in.t {
